@@ -257,10 +257,25 @@ func (e *Env) walkOne(label string, c *gkvlite.Collection, m *model.Coll, free, 
 		e.Failf("C13/in-memory-tree/"+classify(s)+"/"+label, "%s", s)
 		return
 	}
+	// Reclaim marks: a node reachable from a live version may only carry the
+	// mark of a version that cannot die before this one does: none at all for
+	// the newest version, this version's own mark or the mark of a newer
+	// version held through the chain for an older (pinned) version.
+	okMarks := map[uintptr]bool{}
+	if len(ri.ChainMarks) > 0 {
+		okMarks[ri.MarkAddr] = true
+		for _, m := range ri.ChainMarks {
+			okMarks[m] = true
+		}
+	}
 	for _, w := range order {
-		if w.v.Next != 0 {
+		if w.v.Next != 0 && !okMarks[w.v.Next] {
+			kind := "the mark of a version that can die before this one"
+			if w.v.Next == ri.MarkAddr {
+				kind = "the reclaim mark of the current (newest) version itself"
+			}
 			e.Failf("C10/reachable-node-marked-reclaimable/"+label,
-				"a node reachable from the current version of an open collection (depth %d) carries a reclaim mark / free-list link: it will be recycled while still in use", w.v.Depth)
+				"a node reachable from the current version of an open collection (depth %d) carries %s: it will be recycled while still in use", w.v.Depth, kind)
 			return
 		}
 	}
